@@ -326,6 +326,69 @@ func run(r *Rng, tier string, n int) {
 			}
 		}
 	}
+	// several questions (all of them are fixed cost and all of their names are compression targets)
+	for _, nq := range []int{2, 3} {
+		for _, withOpt := range []bool{false, true} {
+			m := new(dns.Msg)
+			m.Response = true
+			qs := []string{"host.example.", "a-second-and-rather-longer-question-name.example.net.", "third.question.example.org."}
+			for i := 0; i < nq; i++ {
+				m.Question = append(m.Question, dns.Question{Name: qs[i], Qtype: dns.TypeA, Qclass: 1})
+			}
+			for j := 0; j < 100; j++ {
+				m.Answer = append(m.Answer, &dns.A{Hdr: dns.RR_Header{Name: qs[j%nq], Rrtype: dns.TypeA, Class: 1, Ttl: 60}, A: []byte{10, 0, byte(j >> 8), byte(j)}})
+			}
+			if withOpt {
+				m.Extra = []dns.RR{&dns.OPT{Hdr: dns.RR_Header{Name: ".", Rrtype: dns.TypeOPT, Class: 1232}}}
+			}
+			for _, sz := range []int{0, 512, 513, 600, 777, 1000, 1232, 1500, 1699} {
+				checkTruncate(m, sz, true, false)
+			}
+			st["multi_question_messages"]++
+		}
+	}
+	// replies beyond 16 KiB: a name placed right at offset 16384 (the last possible pointer target) whose suffix
+	// the later records share, sizes above 16384; and replies beyond 65535 octets at the largest sizes
+	{
+		m := new(dns.Msg)
+		m.Response = true
+		m.SetQuestion("q.example.org.", dns.TypeTXT)
+		for j := 0; len(m.Answer) < 400; j++ {
+			p := m.Copy()
+			p.Compress = true
+			if l := p.Len(); l > 16384-300 && l < 16384+40 {
+				break
+			}
+			m.Answer = append(m.Answer, &dns.TXT{Hdr: dns.RR_Header{Name: "q.example.org.", Rrtype: dns.TypeTXT, Class: 1, Ttl: 60}, Txt: []string{strings.Repeat("f", 190+j%40)}})
+		}
+		for _, pad := range []int{0, 3, 7, 11, 12, 13, 20} {
+			mm := m.Copy()
+			mm.Answer = append(mm.Answer, &dns.TXT{Hdr: dns.RR_Header{Name: "q.example.org.", Rrtype: dns.TypeTXT, Class: 1, Ttl: 60}, Txt: []string{strings.Repeat("p", 200+pad)}})
+			for j := 0; j < 200; j++ {
+				mm.Answer = append(mm.Answer, &dns.A{Hdr: dns.RR_Header{Name: "h" + Itoa(j) + ".t.a-long-unshared-zone-name-for-the-test.invalid.", Rrtype: dns.TypeA, Class: 1, Ttl: 60}, A: []byte{10, 1, byte(j >> 8), byte(j)}})
+			}
+			for _, sz := range []int{16384, 17000, 20000, 24000} {
+				checkTruncate(mm, sz, true, false)
+			}
+			st["beyond_16k_messages"]++
+		}
+		big := new(dns.Msg)
+		big.Response = true
+		big.SetQuestion("big.example.org.", dns.TypeTXT)
+		for j := 0; j < 400; j++ {
+			big.Answer = append(big.Answer, &dns.TXT{Hdr: dns.RR_Header{Name: "big.example.org.", Rrtype: dns.TypeTXT, Class: 1, Ttl: 60}, Txt: []string{strings.Repeat("x", 200)}})
+		}
+		for _, withOpt := range []bool{false, true} {
+			b2 := big.Copy()
+			if withOpt {
+				b2.Extra = []dns.RR{&dns.OPT{Hdr: dns.RR_Header{Name: ".", Rrtype: dns.TypeOPT, Class: 4096}}}
+			}
+			for _, sz := range []int{65534, 65535} {
+				checkTruncate(b2, sz, true, false)
+			}
+			st["beyond_64k_messages"]++
+		}
+	}
 	// TSIG: untouched
 	m := new(dns.Msg)
 	m.SetQuestion("example.org.", dns.TypeA)
